@@ -106,6 +106,12 @@ def build_tensor(desc, shape, ctx):
         ranks = [ranks[j % len(ranks)] for j in range(d)]
         Us = [_vals(rs, (n, r), kind, 1.0) for n, r in zip(shape, ranks)]
         X = _vals(rs, ranks, kind, scale)
+        bal = int(desc.get("balance", 0))
+        if bal:
+            # the same tensor with badly balanced factors: bases scaled by 2^bal, core by 2^(-bal*d) (exact in binary)
+            Us = [U * 2.0 ** bal for U in Us]
+            X = X * 2.0 ** (-bal * d)
+            ctx.flag("tucker:unbalanced_factors")
         ref = rd.expand_tucker(Us, X).reshape(shape)
         obj = ctx.sut(T.TuckerTensor, tuple(U.copy() for U in Us), X.copy(), what="TuckerTensor")
         if 0 in ranks:
@@ -815,6 +821,7 @@ def st_desc(draw, with_shape=True, maxorder=4):
             "ranks": draw(st.lists(st.sampled_from([0, 1, 2, 2, 3]), min_size=4, max_size=4)),
             "kind": draw(st.sampled_from(["int", "uni", "uni", "pos"])),
             "scale_exp": draw(st.sampled_from([0, 0, 0, 1, 3, -3])),
+            "balance": draw(st.sampled_from([0, 0, 0, 0, -30, 30])),
             "seed": draw(st.integers(0, 10 ** 6))}
     if with_shape:
         desc["shape"] = draw(st_shape([1, 1, 2, 3, 3, 4, 5]))
